@@ -255,6 +255,19 @@ impl RecordDecoder {
         let offsets = &self.offsets[..self.offsets_len];
         let num_rows = self.num_rows;
 
+        // The fields are handed out as unchecked sub-slices of `data`, which was validated as
+        // a whole: a multi-byte sequence split across a field boundary is valid UTF-8 when the
+        // fields are concatenated, but not in either field on its own
+        if let Some(idx) = offsets.iter().position(|o| !data.is_char_boundary(*o)) {
+            let field_idx = idx - 1;
+            let field = field_idx % self.num_columns + 1;
+            let line_offset = self.line_number - self.num_rows;
+            let line = line_offset + field_idx / self.num_columns;
+            return Err(ArrowError::CsvError(format!(
+                "Encountered invalid UTF-8 data for line {line} and field {field}"
+            )));
+        }
+
         // Reset state
         // `truncated_row_count` is deliberately left alone so that it accumulates
         // across the batches produced by a single decoder
